@@ -221,9 +221,9 @@ Definition run_native (in_fiber : bool) (n : native) (recv : akind) (args : list
        | _ => NPanic "stack.rs:peek:Stack index out of range"
        end)
   | String_from => check_num_args na 1 (NOk RKStr)
-  | String_from_ascii => NDeleg "StrFns.string_from_ascii"
-  | String_from_utf8 => NDeleg "StrFns.string_from_utf8"
-  | String_from_code_points => NDeleg "StrFns.string_from_code_points"
+  | String_from_ascii => check_num_args na 1 (NDeleg "StrFns.string_from_ascii")
+  | String_from_utf8 => check_num_args na 1 (NDeleg "StrFns.string_from_utf8")
+  | String_from_code_points => check_num_args na 1 (NDeleg "StrFns.string_from_code_points")
   | String_iter =>
     check_num_args na 0
       (match recv with
@@ -604,7 +604,7 @@ Definition run_probes_w (w : string) : string := show_sep "|" run_probe_w (parse
 Definition native_name (n : native) : string :=
   match n with
   | G_clock => "clock" | G_print => "print" | G_type => "type"
-  | Object_derives => "Object.derives"
+  | Object_derives => "Object#derives"
   | String_from => "String.from" | String_from_ascii => "String.from_ascii"
   | String_from_utf8 => "String.from_utf8" | String_from_code_points => "String.from_code_points"
   | String_iter => "String#iter" | String_len => "String#len" | String_is_alpha => "String#is_alpha"
@@ -632,3 +632,59 @@ Definition native_name (n : native) : string :=
 Definition native_table : string :=
   show_sep "|" (fun n => native_name n ++ ":" ++ show_nat (expected_args n) ++ ":"
                          ++ show_bool (recv_panics n)) all_natives.
+
+(* ------------------------------------------------------------------------------------------ *)
+(** * The guard structure of the model, in the format of gen/NativesSrc.v (translate_c02.py) *)
+
+Definition arity_src (n : native) : string :=
+  match n with
+  | G_clock | Fiber_yield => "-"
+  | Fiber_call => "?"
+  | _ => show_nat (expected_args n)
+  end.
+
+Definition recv_src (n : native) : string :=
+  match n with
+  | String_iter | String_len | String_is_alpha | String_is_digit | String_is_hexdigit
+  | String_count_chars | String_char_byte_index | String_find | String_replace | String_split
+  | String_starts_with | String_ends_with | String_to_num | String_to_bytes
+  | String_to_code_points => "string"
+  | StringIter_next => "string_iter"
+  | Tuple_len | Tuple_iter => "tuple"
+  | TupleIter_next => "tuple_iter"
+  | Vec_push | Vec_pop | Vec_len | Vec_iter => "vec"
+  | VecIter_next => "vec_iter"
+  | Range_iter => "range"
+  | RangeIter_next => "range_iter"
+  | Map_has_key | Map_get | Map_insert | Map_remove | Map_clear | Map_len | Map_keys
+  | Map_values | Map_items => "hash_map"
+  | Fiber_call | Fiber_has_finished => "fiber"
+  | _ => "-"
+  end.
+
+Definition key_src (n : native) : bool :=
+  match n with Map_has_key | Map_get | Map_insert | Map_remove => true | _ => false end.
+
+Definition arity_first_src (n : native) : bool :=
+  match n with Fiber_call => false | _ => true end.
+
+Definition is_core_native (n : native) : bool :=
+  match n with Error_new | VM_set_item => false | _ => true end.
+
+Definition src_row : Set := (string * string * string * bool * bool)%type.
+
+Definition model_rows : list src_row :=
+  map (fun n => (native_name n, arity_src n, recv_src n, key_src n, arity_first_src n))
+      (filter is_core_native all_natives).
+
+Definition row_eqb (a b : src_row) : bool :=
+  match a, b with
+  | (n1, a1, r1, k1, f1), (n2, a2, r2, k2, f2) =>
+    String.eqb n1 n2 && String.eqb a1 a2 && String.eqb r1 r2 && Bool.eqb k1 k2 && Bool.eqb f1 f2
+  end.
+
+(* same rows, in any order *)
+Definition rows_match (src model : list src_row) : bool :=
+  forallb (fun r => existsb (row_eqb r) model) src
+  && forallb (fun r => existsb (row_eqb r) src) model
+  && Nat.eqb (List.length src) (List.length model).
